@@ -1200,3 +1200,23 @@ Proof.
                                   sh s Hsh Hs Hch Hty i Hi) as Hc.
   rewrite Hopt in Hc. exact Hc.
 Qed.
+
+(** the two candidates of T2 have EQUAL counts (with the laws of the frequency
+    algebra; counts never exceed the class size on a well-formed profile) *)
+Lemma class_base_pv fa cfg thr counts ce b :
+  In b (class_base fa cfg thr counts ce) -> pv fa (class_cnt counts ce) b = ratio fa (s_nocc b) (class_cnt counts ce).
+Proof.
+  intros H. apply class_base_In in H. destruct H as [_ H]. apply base_statements_In in H.
+  destruct H as (p & m & k & cd & c & n & _ & _ & _ & _ & ->). reflexivity.
+Qed.
+
+Corollary useless_pair_equal_counts fa okN okF (L : FreqLaws fa okN okF) cfg thr counts ce a b :
+  In a (class_base fa cfg thr counts ce) -> In b (class_base fa cfg thr counts ce) ->
+  okN (class_cnt counts ce) -> (s_nocc a <= class_cnt counts ce)%N -> (s_nocc b <= class_cnt counts ce)%N ->
+  (feqb fa (pv fa (class_cnt counts ce) a) (pv fa (class_cnt counts ce) b) = true \/
+   feqb fa (pv fa (class_cnt counts ce) b) (pv fa (class_cnt counts ce) a) = true) ->
+  s_nocc a = s_nocc b.
+Proof.
+  intros Ha Hb Hok Hla Hlb H. rewrite (class_base_pv _ _ _ _ _ _ Ha), (class_base_pv _ _ _ _ _ _ Hb) in H.
+  destruct H as [H|H]; apply (ratio_feqb_iff fa okN okF L) in H; try assumption; congruence.
+Qed.
